@@ -67,6 +67,7 @@ func TestVerifC08Backoff(t *testing.T) {
 			// move deadlines, "send" events carry every GRAFT / PRUNE the node handed to a peer's queue.
 			traceMark := 0
 			hasOut := map[peer.ID]bool{}
+			joinedNow := map[string]bool{}
 			absorb := func(ctx string, op *gsOp) {
 				evs := w.nd.tr.Since(traceMark)
 				traceMark += len(evs)
@@ -82,6 +83,32 @@ func TestVerifC08Backoff(t *testing.T) {
 						hasOut[e.Peer] = true
 					case "closedout":
 						delete(hasOut, e.Peer)
+					case "join":
+						joinedNow[e.Topic] = true
+					case "leave":
+						delete(joinedNow, e.Topic)
+					case "recv":
+						// a PRUNE the node accepted for a topic it has joined names the period to obey, whatever the
+						// node's own record of that peer says at that moment (crossing PRUNEs, a peer already dropped
+						// from the mesh); judged on the receipt itself, not on the router's bookkeeping callback
+						if ctx != "prune" || op == nil || op.Before == nil || e.RPC == nil || op.Pup.p.ID() != e.Peer {
+							continue
+						}
+						_, direct := op.Before.Direct[e.Peer]
+						if sc, ok := op.Before.Scores[e.Peer]; !direct && (!ok || sc < th.GraylistThreshold+1) {
+							continue
+						}
+						for _, pr := range e.RPC.GetControl().GetPrune() {
+							if !joinedNow[pr.GetTopicID()] {
+								continue
+							}
+							d := params.PruneBackoff
+							if pr.GetBackoff() > 0 {
+								d = time.Duration(pr.GetBackoff()) * time.Second
+							}
+							extend(key{e.Peer, pr.GetTopicID()}, e.T.Add(d), "pruned by the peer")
+							classes["deadline_from_received_prune"]++
+						}
 					case "prune":
 						k := key{e.Peer, e.Topic}
 						switch {
